@@ -63,13 +63,11 @@ func (m *Matcher) lit(t string) bool {
 	return false
 }
 
-func (m *Matcher) num(want float64) bool {
+// numCandidates lists the lengths of the prefixes at the current position
+// that are numerals denoting want, longest first.
+func (m *Matcher) numCandidates(want float64) []int {
 	greedy := numeralRe.FindString(m.s[m.pos:])
-	if greedy == "" {
-		return m.fail("expected a numeral denoting %v", want)
-	}
-	// the numeral may be followed directly by expected text that starts with
-	// digits ("1e+21" + "5"): take the longest prefix that denotes the value
+	var out []int
 	for l := len(greedy); l >= 1; l-- {
 		loc := greedy[:l]
 		if numeralRe.FindString(loc) != loc {
@@ -80,29 +78,59 @@ func (m *Matcher) num(want float64) bool {
 			continue
 		}
 		if sameFloat(got, want) {
-			m.Numerals = append(m.Numerals, NumObs{loc, want})
-			m.pos += l
+			out = append(out, l)
+		}
+	}
+	return out
+}
+
+func (m *Matcher) num(want float64) bool {
+	c := m.numCandidates(want)
+	if len(c) == 0 {
+		greedy := numeralRe.FindString(m.s[m.pos:])
+		if greedy == "" {
+			return m.fail("expected a numeral denoting %v", want)
+		}
+		got, _ := strconv.ParseFloat(greedy, 64)
+		return m.fail("numeral %q denotes %v, expected %v (bits %x)", greedy, got, want, math.Float64bits(want))
+	}
+	m.Numerals = append(m.Numerals, NumObs{m.s[m.pos : m.pos+c[0]], want})
+	m.pos += c[0]
+	return true
+}
+
+// segs matches text with embedded open numerals; a numeral directly followed
+// by expected text starting with digits is ambiguous ("25.75"+"0"), so the
+// numeral candidates are tried longest first with backtracking.
+func (m *Matcher) segs(segs []ref.Seg) bool {
+	if len(segs) == 0 {
+		return true
+	}
+	g := segs[0]
+	if !g.IsNum {
+		t := norm.NFC.String(g.Text)
+		if !m.lit(t) {
+			return m.fail("expected text %q", t)
+		}
+		return m.segs(segs[1:])
+	}
+	cands := m.numCandidates(g.Num)
+	if len(cands) == 0 {
+		return m.num(g.Num) // records the failure reason
+	}
+	save, saveN, saveWhy := m.pos, len(m.Numerals), m.why
+	for _, l := range cands {
+		m.pos = save + l
+		m.Numerals = append(m.Numerals[:saveN], NumObs{m.s[save : save+l], g.Num})
+		m.why = saveWhy
+		if m.segs(segs[1:]) {
 			return true
 		}
 	}
-	got, _ := strconv.ParseFloat(greedy, 64)
-	return m.fail("numeral %q denotes %v, expected %v (bits %x)", greedy, got, want, math.Float64bits(want))
-}
-
-func (m *Matcher) segs(segs []ref.Seg) bool {
-	for _, g := range segs {
-		if g.IsNum {
-			if !m.num(g.Num) {
-				return false
-			}
-		} else {
-			t := norm.NFC.String(g.Text)
-			if !m.lit(t) {
-				return m.fail("expected text %q", t)
-			}
-		}
-	}
-	return true
+	why := m.why
+	m.pos, m.Numerals = save, m.Numerals[:saveN]
+	m.why = why
+	return false
 }
 
 func (m *Matcher) pat(p *ref.Pat, top bool) bool {
